@@ -12,7 +12,9 @@
 # You should have received a copy of the GNU Lesser General Public
 # License along with this library.  If not, see <http://www.gnu.org/licenses/>.
 
+import io
 import token
+import tokenize
 import ast
 import warnings
 from types import FunctionType, CodeType
@@ -126,6 +128,37 @@ def is_lambda(src: str):
             return True
 
     return False
+
+
+def dedent_funcdef(source: str):
+    """Remove the indentation of a function definition in a block
+
+    Unlike ``textwrap.dedent``, lines starting in multi-line string
+    literals are left intact.
+    """
+    lines = source.splitlines(keepends=True)
+    margin = lines[0][:len(lines[0]) - len(lines[0].lstrip())]
+
+    fstr_start = getattr(token, "FSTRING_START", None)  # Python 3.12 or newer
+    fstr_end = getattr(token, "FSTRING_END", None)
+    fstrs = []
+    in_str = set()  # Numbers of the lines starting in string literals
+    for tok in tokenize.generate_tokens(io.StringIO(source).readline):
+        first = tok.start[0]
+        if tok.type == fstr_start:
+            fstrs.append(first)
+        elif tok.type == fstr_end:
+            first = fstrs.pop()
+        in_str.update(range(first + 1, tok.end[0] + 1))
+
+    for i, line in enumerate(lines):
+        if i + 1 not in in_str:
+            if line.startswith(margin) and line.strip():
+                lines[i] = line[len(margin):]
+            else:   # Blank, or comment or continued line with less indent
+                lines[i] = line.lstrip(" \t")
+
+    return "".join(lines)
 
 
 def remove_decorator(source: str):
@@ -350,12 +383,12 @@ class Formula:
             src = extract_lambda_from_func(func)
             self._init_from_lambda(src, name)
         else:
-            self._init_from_funcdef(getsource(func), name)
+            self._init_from_funcdef(dedent_funcdef(getsource(func)), name)
 
     def _init_from_source(self, src: str, name: str):
 
         if is_funcdef(src):
-            self._init_from_funcdef(src, name)
+            self._init_from_funcdef(dedent(src), name)
         elif has_lambda(src):
             src = extract_lambda_from_source(dedent(src))
             self._init_from_lambda(src, name)
@@ -366,9 +399,9 @@ class Formula:
 
         self._is_lambda = False
 
-        module_node = ast.parse(dedent(src))
+        module_node = ast.parse(src)
         funcname = name or module_node.body[0].name
-        src = remove_decorator(dedent(src))
+        src = remove_decorator(src)
         if name:
             src = replace_funcname(src, name)
 
